@@ -177,7 +177,7 @@ func (h *Handler6) ProcessPacket(pkt packet.Frame) (err error) {
 
 		// wakeup all pending spoof goroutines
 		// we want to immediately spoof hosts after an RA
-		if h.huntList.Len() > 0 {
+		if h.huntList.Len() > 0 && !h.closed { // after Close the channel is already closed
 			ch := h.closeChan
 			h.closeChan = make(chan bool)
 			close(ch) // this will cause all spoof loop select to wakeup
